@@ -146,5 +146,64 @@ CHECKS["C08"] = {
     "technique": "exhaustive input enumeration (all 2^32 floats, all 2^16 halves, all 2^32 half pairs) against an exact integer reference, software vs F16C path digest comparison",
 }
 
+CHECKS["C07"] = {
+    "engine": "E3-exhaustive-enumerator",
+    "category": "exploration",
+    "text": "Static part: 800+ type identities (closure_type_t, const_closure_type_t, ptr_closure_type_t, apply_cv_t, forward_type_t, return types of closure/const_closure/closure_pointer/proxy_wrapper/optional/masked_value/"
+            "forward_sequence and of the &/&&-qualified accessors of every wrapper) generated from the reference rule 'lvalue -> (const) reference or pointer, rvalue -> decayed value, const preserved' over every value category and "
+            "payload; the compiler is the executor and every failing row is confirmed as a one-assert translation unit. Dynamic part: for 13 wrapper kinds x 6 source categories x 3 payloads EVERY operation sequence up to length 4 "
+            "(thorough 5) over read/assign/copy/move/swap/address-of/kill-the-source is executed and compared with a cell model (address identity, copy/move counters, values, exactly one owned object) with a lifetime registry and "
+            "AddressSanitizer (stack-use-after-return on); bitset element references and forward_sequence likewise.",
+    "design_ref": "DESIGN.md section 3, C07",
+    "note": "Trusted: the Python reference rule and the cell model. Bounds: sequence length 4/5, payloads int/Counted/MoveOnly. Ill-formed instantiations (deleted same-type assignment of reference-closure wrappers, "
+            "move-only rvalue closures with g++ < C++20) are capability-probed and reported as notes. Where the statement leaves a choice both answers are accepted.",
+    "technique": "exhaustive program (instantiation) enumeration with the compiler as executor plus exhaustive operation-sequence enumeration against an aliasing/ownership model",
+}
+CHECKS["C09"] = {
+    "engine": "E3-exhaustive-enumerator",
+    "category": "exploration",
+    "text": "All 2^16 arguments of every unary half function (26 entry points) and of the rounding/decomposition family, all halves x exponents [-60,60] u {INT_MIN, INT_MAX} for ldexp/scalbn/scalbln, and for the 11 binary "
+            "functions all pairs over a 1000-value alphabet (every pair judged by MPFR) plus a 3976-value alphabet (quick) / ALL 2^32 ordered pairs (thorough, glibc double pre-filter, MPFR for every undecided pair, every mismatch "
+            "and every accepted 1-ULP difference). The verdict is MPFR correctly rounded to binary16 (precision 11, emin/emax of binary16, mpfr_subnormalize), itself cross-checked against 256-bit MPFR with an independent "
+            "integer rounding routine. Functions documented exact must match bit for bit, the eight 1-ULP functions within one ULP. Each sweep runs in a forked child so a crash or hang is attributed to an input.",
+    "design_ref": "DESIGN.md section 3, C09",
+    "note": "Trusted: MPFR/GMP (cross-checked), glibc float functions for the rounding family. Only the shipped configuration (round-to-nearest, software conversions) is judged. Thorough completes all 2^32 pairs for 10 of 11 "
+            "binary functions within its deadline on a loaded machine and reports a cap for pow when it does not finish.",
+    "technique": "exhaustive input enumeration (all 2^16 arguments; alphabets squared / all 2^32 pairs) against a correctly rounded MPFR reference",
+}
+CHECKS["C10"] = {
+    "engine": "E3-exhaustive-enumerator",
+    "category": "exploration",
+    "text": "Every operand pair (a+bi, c+di) with components from a boundary alphabet V (17 values quick, 45 thorough: zeros of both signs, small integers, inexact mantissas, 2^+-BIG, extremes, subnormals, infinities, NaN), i.e. "
+            "all of V^4, for float and double, is pushed through every well-formed way of driving xcomplex (493 instantiations per type: + - * / as binary, compound and mixed real/complex forms over value / T& / const T& closures "
+            "and both ieee flags, std::complex conversions, ==, !=, unary minus, 23 forwarded functions, accessors). Oracles: exact __float128 arithmetic with a normwise 8-eps tolerance for well-scaled finite operands, the six "
+            "Annex G rules of the statement with libstdc++ as a second opinion, bit-identity between closure kinds and against std::complex for forwarded functions.",
+    "design_ref": "DESIGN.md section 3, C10",
+    "note": "Trusted: __float128, libstdc++ std::complex as second opinion. Bounded by the alphabet. 160 manifest entries per type are ill-formed on this tree (operator=, +=, -= across different instantiations read private "
+            "members) and are decided by compile probes, reported as notes.",
+    "technique": "exhaustive enumeration of operand pairs over a boundary alphabet (V^4) x all instantiations against exact wide arithmetic and the Annex G rule table",
+}
+CHECKS["C18"] = {
+    "engine": "E3-exhaustive-enumerator",
+    "category": "exploration",
+    "text": "The domain is the set of programs: a Python generator holds the reference semantics (ordinary list operations on lists of type names) and emits one static_assert per case; the compiler is the executor. "
+            "All lists over 4 element types up to length 6 (thorough 7-8: 87 381 lists) x every mpl algorithm (size empty front back push/pop count contains index_of count_if find_if transform cast split<N> unique), merge_set on "
+            "all ordered pairs of lists up to length 3, if_/eval_if/switch_ over all condition vectors, static_if executed at run time; promote_type_t over ALL packs of length 1-3 of 15 arithmetic and 3 complex types (6 174 packs), "
+            "conjunction/disjunction/negation on all boolean packs up to length 4, apply_cv/constify on all 12 cv/ref forms, common_optional_t. The arithmetic model is cross-checked against the compiler's decltype on every run.",
+    "design_ref": "DESIGN.md section 3, C18",
+    "note": "Trusted: g++ 12 / clang++ 14 as executors, the Python list model. Bounds: 4 element types, list length 6/7/8, packs up to 3.",
+    "technique": "exhaustive program (instantiation) enumeration: generated static_assert translation units with the compiler as executor and a Python reference model",
+}
+CHECKS["C20"] = {
+    "engine": "E3-exhaustive-enumerator",
+    "category": "exploration",
+    "text": "Configuration enumeration: a helper built from /repo/include is installed at every path of a stated alphabet - depth x total length (boundary lengths around 256, 512, 1024, 2048, 4095; thorough: every length 57..4095) x "
+            "component flavour (plain, spaces, UTF-8, non-UTF-8 high bytes, leading dot, control/shell characters) x invocation (direct, relative, symlink to file, symlinked directory, symlink chain) x build (ASan, plain) - and "
+            "started in a forked child; the driver never includes xtl and judges executable_path()/prefix_path() against the path it created itself, endianness() against three independent byte inspections, ASan as over-read observer.",
+    "design_ref": "DESIGN.md section 3, C20",
+    "note": "Trusted: the driver's own path construction. Linux/x86-64/ext4 only; other platform branches are unreachable here. Name lengths are uniform within a path.",
+    "technique": "exhaustive enumeration of an install-path alphabet (depth x length x flavour x invocation) with an out-of-process oracle",
+}
+
 NOT_YET = "check not built yet in this round; design in DESIGN.md section 3"
 NOT_APPLICABLE = {}
